@@ -284,7 +284,33 @@ def exception_instances(ureg):
     add("UndefinedBehavior", lambda: E.UndefinedBehavior("undefined"))
     add("PintError", lambda: E.PintError("plain"))
     add("PintTypeError", lambda: E.PintTypeError("plain type"))
+    # every class x every argument tuple over an alphabet that contains the falsy look-alikes of each position
+    empty = type(uc1)({})
+    anyv = {"str": "meter", "empty-str": "", "container": uc1, "empty-container": empty, "zero": 0, "None": None}
+    table = [
+        ("DimensionalityError", E.DimensionalityError, [anyv, anyv, {"dim": "[length]", "empty-str": ""}, {"dim": "[time]", "empty-str": ""}, {"extra": " extra", "empty-str": ""}], 2),
+        ("OffsetUnitCalculusError", E.OffsetUnitCalculusError, [anyv, anyv], 1),
+        ("LogarithmicUnitCalculusError", E.LogarithmicUnitCalculusError, [anyv, anyv], 1),
+        ("DefinitionError", E.DefinitionError, [{"str": "name", "empty-str": ""}, {"type": int, "type2": type(uc1)}, {"str": "a message", "empty-str": ""}], 3),
+        ("RedefinitionError", E.RedefinitionError, [{"str": "meter", "empty-str": ""}, {"type": int, "type2": type(uc1)}], 2),
+        ("UndefinedUnitError", E.UndefinedUnitError, [{"str": "xyzzy", "empty-str": "", "empty-tuple": (), "list": ["a", "b"], "set1": {"a"}}], 1),
+        ("DefinitionSyntaxError", E.DefinitionSyntaxError, [{"str": "bad", "empty-str": ""}], 1),
+        ("UnitStrippedWarning", E.UnitStrippedWarning, [{"str": "stripped", "empty-str": ""}], 1),
+        ("UndefinedBehavior", E.UndefinedBehavior, [{"str": "undefined", "empty-str": ""}], 1),
+    ]
+    import itertools as _it
+
+    for cname, cls, positions, min_args in table:
+        for nargs in range(min_args, len(positions) + 1):
+            for combo in _it.product(*[list(p.items()) for p in positions[:nargs]]):
+                add(f"{cname}({','.join(k for k, _ in combo)})", (lambda cls, combo: lambda: cls(*[v for _, v in combo]))(cls, combo))
     # exceptions as actually raised by the library
+    add("raised:OffsetUnitCalculusError(q*number)", lambda: _raised(lambda: ureg.Quantity(10, "degC") * 2))
+    add("raised:OffsetUnitCalculusError(number/q)", lambda: _raised(lambda: 2 / ureg.Quantity(10, "degC")))
+    add("raised:OffsetUnitCalculusError(q*dimensionless)", lambda: _raised(lambda: ureg.Quantity(10, "degC") * ureg.Quantity(2, "")))
+    add("raised:OffsetUnitCalculusError(q**2)", lambda: _raised(lambda: ureg.Quantity(10, "degC") ** 2))
+    add("raised:LogarithmicUnitCalculusError", lambda: _raised(lambda: ureg.Quantity(10, "dB") * ureg.Quantity(10, "dBm")))
+    add("raised:OffsetUnitCalculusError(add)", lambda: _raised(lambda: ureg.Quantity(10, "degC") + ureg.Quantity(10, "degC")))
     add("raised:DimensionalityError", lambda: _raised(lambda: ureg.Quantity(1, "meter").to("second")))
     add("raised:UndefinedUnitError", lambda: _raised(lambda: ureg.parse_units("xyzzy")))
     add("raised:OffsetUnitCalculusError", lambda: _raised(lambda: ureg.Quantity(1, "degC") * ureg.Quantity(1, "degC")))
